@@ -1,5 +1,6 @@
 import RadicaleProofs.Fold
 import RadicaleProofs.Export
+import RadicaleProofs.BulkNames
 /-
   C14 — calendar objects and contacts come back exactly as they were stored   (partial).
 
@@ -81,5 +82,51 @@ private def obj (uid tzextra : String) : List Export.Line :=
    "BEGIN:VEVENT", "UID:" ++ uid, "END:VEVENT", "END:VCALENDAR", ""].map String.toList
 example : Export.emittedTzids [obj "a" "X-A:1", obj "b" "X-B:2"] = ["Europe/Berlin".toList] := by decide +kernel
 example : (Export.body [obj "a" "X-A:1", obj "b" "X-B:2"]).length = 4 + 3 + 3 := by decide +kernel
+
+/-! ### whole-collection upload: the names the objects are stored under (`_upload_all_nonatomic`), model
+    RadicaleModel/BulkNames.lean.  "Preserves the set of objects" needs, below all text coding, that no object of the
+    upload is written over another one -/
+
+section BulkNames
+open Radicale.BulkNames
+
+/-- **whole-collection upload, names**: the objects of one upload get pairwise different, safe file names, none of
+    them a name already present — for every list of UIDs (also UIDs whose derived names coincide, such as `X` and
+    `X.ics`), every digest function and every random source that keeps its contract -/
+theorem bulk_names_distinct (e : Env) (hf : FreshOk e) (uids taken : List Str) :
+    ((assign e uids taken).map (·.1)).Nodup ∧
+    ∀ p ∈ assign e uids taken, Path.safeFsComp p.1 = true ∧ p.1 ∉ taken :=
+  ⟨(assign_spec e hf uids taken).2, (assign_spec e hf uids taken).1⟩
+
+/-- one name per object, in upload order: no object is dropped -/
+theorem bulk_keeps_every_object (e : Env) (uids taken : List Str) :
+    (assign e uids taken).map (·.2) = uids := assign_uids e uids taken
+
+/-- **nothing is overwritten**: after the loop has written every object under its name, each object of the upload
+    is read back under the name it was given -/
+theorem bulk_upload_overwrites_nothing (e : Env) (hf : FreshOk e) (uids : List Str) (dir : List (Str × Str)) :
+    ∀ p ∈ assign e uids (dir.map (·.1)), lookup (writeAll dir (assign e uids (dir.map (·.1)))) p.1 = some p.2 :=
+  read_back_of_nodup _ dir (assign_spec e hf uids _).2
+
+/-- the plain name is used whenever it is safe and not present -/
+theorem bulk_plain_name_when_free (e : Env) (taken : List Str) (uid : Str)
+    (hs : Path.safeFsComp (first e uid) = true) (hn : first e uid ∉ taken) : pick e taken uid = first e uid := by
+  have : free taken (first e uid) = true := (free_iff _ _).2 ⟨hs, hn⟩
+  simp [pick, this]
+
+def demoEnv : Env := { suffix := ".ics".toList, hash := fun u => "H".toList ++ u, fresh := fun t => "R".toList ++ t.flatten ++ ".ics".toList }
+
+/-- non-vacuity, and the case the fall-back names exist for: `X` and `X.ics` both want `X.ics`; the second one
+    gets the digest name -/
+example : (assign demoEnv ["X".toList, "X.ics".toList] []).map (fun p => String.ofList p.1) = ["X.ics", "HX.ics.ics"] := by decide
+
+/-- seeded change C14f (the "not yet present" test dropped): the same two objects get the same name, and the
+    first one is gone after the loop -/
+theorem naive_names_overwrite :
+    (assignNaive demoEnv ["X".toList, "X.ics".toList]).map (fun p => String.ofList p.1) = ["X.ics", "X.ics"] ∧
+    lookup (writeAll [] (assignNaive demoEnv ["X".toList, "X.ics".toList])) "X.ics".toList = some "X.ics".toList ∧
+    (writeAll [] (assignNaive demoEnv ["X".toList, "X.ics".toList])).length = 1 := by decide
+
+end BulkNames
 
 end C14
